@@ -5,6 +5,10 @@ package main
 // channel up to the terminator). Each obligation is a statement about all CFG paths of the real function.
 
 import (
+	"sort"
+	"path/filepath"
+	"os"
+	"bufio"
 	"fmt"
 	"go/constant"
 	"go/token"
@@ -932,4 +936,247 @@ func (e *Eng) filterNotMutated() {
 		}
 		e.add("filter#not-mutated", key, []string{"C12"}, bad == "", "the caller's onlyKeys map is only read "+bad)
 	}
+}
+
+// ssaSame: structural equality of two SSA values (same constants, same operators over equal operands, loads of the same
+// field of the same object, the same allocation).
+func ssaSame(a, b ssa.Value, depth int) bool {
+	if a == b {
+		return true
+	}
+	if depth > 8 {
+		return false
+	}
+	switch x := a.(type) {
+	case *ssa.Const:
+		y, ok := b.(*ssa.Const)
+		if !ok {
+			return false
+		}
+		if x.Value == nil || y.Value == nil {
+			return x.Value == nil && y.Value == nil
+		}
+		return constant.Compare(x.Value, token.EQL, y.Value)
+	case *ssa.UnOp:
+		y, ok := b.(*ssa.UnOp)
+		return ok && x.Op == y.Op && ssaSame(x.X, y.X, depth+1)
+	case *ssa.BinOp:
+		y, ok := b.(*ssa.BinOp)
+		return ok && x.Op == y.Op && ssaSame(x.X, y.X, depth+1) && ssaSame(x.Y, y.Y, depth+1)
+	case *ssa.FieldAddr:
+		y, ok := b.(*ssa.FieldAddr)
+		return ok && x.Field == y.Field && ssaSame(x.X, y.X, depth+1)
+	case *ssa.IndexAddr:
+		y, ok := b.(*ssa.IndexAddr)
+		return ok && ssaSame(x.X, y.X, depth+1) && ssaSame(x.Index, y.Index, depth+1)
+	case *ssa.Slice:
+		y, ok := b.(*ssa.Slice)
+		if !ok || !ssaSame(x.X, y.X, depth+1) {
+			return false
+		}
+		same := func(p, q ssa.Value) bool {
+			if p == nil || q == nil {
+				return p == nil && q == nil
+			}
+			return ssaSame(p, q, depth+1)
+		}
+		return same(x.Low, y.Low) && same(x.High, y.High) && same(x.Max, y.Max)
+	case *ssa.Convert:
+		y, ok := b.(*ssa.Convert)
+		return ok && types.Identical(x.Type(), y.Type()) && ssaSame(x.X, y.X, depth+1)
+	case *ssa.Call:
+		y, ok := b.(*ssa.Call)
+		if !ok || calleeName(&x.Call) != calleeName(&y.Call) || calleeName(&x.Call) == "" || len(x.Call.Args) != len(y.Call.Args) {
+			return false
+		}
+		if bi, isB := x.Call.Value.(*ssa.Builtin); !isB || (bi.Name() != "len" && bi.Name() != "cap") {
+			return false
+		}
+		for i := range x.Call.Args {
+			if !ssaSame(x.Call.Args[i], y.Call.Args[i], depth+1) {
+				return false
+			}
+		}
+		return true
+	}
+	return false
+}
+
+// familiesSameArguments (C06): wherever stage 1 chooses between the AVX2 and the AVX-512 kernel, both calls receive the
+// same arguments (the kernels are proved equivalent on equal inputs; the Go driver must not feed them differently).
+func (e *Eng) familiesSameArguments() {
+	fn := e.fn("(*internalParsedJson).findStructuralIndices")
+	if fn == nil {
+		return
+	}
+	a2 := find(fn, isCall("find_structural_bits_in_slice"))
+	a5 := find(fn, isCall("find_structural_bits_in_slice_avx512"))
+	ok, detail := len(a2) > 0 && len(a2) == len(a5), fmt.Sprintf("%d AVX2 and %d AVX-512 call sites", len(a2), len(a5))
+	if ok {
+		for i := range a2 {
+			c2 := a2[i].b.Instrs[a2[i].i].(*ssa.Call)
+			// the partner: the AVX-512 call in the sibling branch (same immediate dominator)
+			var c5 *ssa.Call
+			for _, p := range a5 {
+				if p.b.Idom() == a2[i].b.Idom() {
+					c5 = p.b.Instrs[p.i].(*ssa.Call)
+				}
+			}
+			if c5 == nil {
+				ok, detail = false, "AVX2 call at "+e.pos(c2)+" has no AVX-512 counterpart in the sibling branch"
+				break
+			}
+			for k := range c2.Call.Args {
+				if k >= len(c5.Call.Args) || !ssaSame(c2.Call.Args[k], c5.Call.Args[k], 0) {
+					ok, detail = false, fmt.Sprintf("argument %d differs between the AVX2 call at %s and the AVX-512 call at %s", k, e.pos(c2), e.pos(c5))
+				}
+			}
+		}
+	}
+	if ok {
+		detail += "; each pair receives structurally identical arguments"
+	}
+	e.add("stage1#families-same-arguments", funcKey(fn), []string{"C06"}, ok, detail)
+}
+
+// reviewedGlobals (C20, C15): the package-level variables are exactly the reviewed set listed in the contract file
+// (`//@ globals ...`): tables, error values, sync objects and codec pools. A new package-level variable is shared by
+// every parser / serializer in the process and must be reviewed before the independence argument holds.
+func (e *Eng) reviewedGlobals() {
+	want := map[string]bool{}
+	if f, err := os.Open(filepath.Join(e.repo, "verif_contracts.go")); err == nil {
+		sc := bufio.NewScanner(f)
+		sc.Buffer(make([]byte, 1<<20), 1<<20)
+		for sc.Scan() {
+			l := strings.TrimSpace(sc.Text())
+			if strings.HasPrefix(l, "//@ globals ") {
+				for _, n := range strings.Fields(strings.TrimPrefix(l, "//@ globals ")) {
+					want[n] = true
+				}
+			}
+		}
+		f.Close()
+	}
+	var extra, missing []string
+	have := map[string]bool{}
+	for name, m := range e.pkg.Members {
+		g, ok := m.(*ssa.Global)
+		if !ok || strings.HasPrefix(name, "init$") {
+			continue
+		}
+		if g.Pos().IsValid() {
+			file := e.fset.Position(g.Pos()).Filename
+			if strings.HasSuffix(file, "_test.go") || strings.HasSuffix(file, "verif_contracts.go") {
+				continue
+			}
+		}
+		have[name] = true
+		if !want[name] {
+			extra = append(extra, name)
+		}
+	}
+	for n := range want {
+		if !have[n] {
+			missing = append(missing, n)
+		}
+	}
+	sort.Strings(extra)
+	sort.Strings(missing)
+	e.add("globals#reviewed-set", "package", []string{"C20", "C15"}, len(want) > 0 && len(extra) == 0,
+		fmt.Sprintf("%d package-level variables reviewed; not in the reviewed set: %v; listed but gone: %v", len(want), extra, missing))
+}
+
+// compressModeComplete (C11, C15): CompressMode assigns every configuration field for every mode, so a Serializer's
+// output mode does not depend on the mode it had before.
+func (e *Eng) compressModeComplete() {
+	fn := e.fn("(*Serializer).CompressMode")
+	if fn == nil {
+		return
+	}
+	fields := []string{"compValues", "compTags", "compStrings"}
+	ok, detail := true, "every path through CompressMode assigns compValues, compTags and compStrings"
+	for _, fld := range fields {
+		f := fld
+		isSet := func(in ssa.Instruction) bool {
+			st, isSt := in.(*ssa.Store)
+			if !isSt {
+				return false
+			}
+			fa, isFA := st.Addr.(*ssa.FieldAddr)
+			if !isFA {
+				return false
+			}
+			s := fa.X.Type().Underlying().(*types.Pointer).Elem().Underlying().(*types.Struct)
+			return s.Field(fa.Field).Name() == f
+		}
+		if r, w := reachWithout(ipos{fn.Blocks[0], -1}, isReturn(), isSet); r {
+			ok, detail = false, "a path to the return at "+e.pos(w)+" does not assign "+f+": the field keeps the previous mode's value"
+		}
+	}
+	e.add("config#mode-sets-every-field", funcKey(fn), []string{"C11", "C15"}, ok, detail)
+}
+
+// ndstreamErrors (C09): the error the reader goroutine reports is the one it just observed (the argument of queueError
+// is the value whose non-nil test guards the call), and the chunk buffer a worker parses is its own: the variable the
+// worker closure captures is allocated once per loop iteration, not shared between iterations.
+func (e *Eng) ndstreamErrors() {
+	reader := e.ndRoleQuiet("reader")
+	if reader == nil {
+		return
+	}
+	ok, detail := true, ""
+	n := 0
+	for _, p := range find(reader, isCall("queueError")) {
+		n++
+		c := p.b.Instrs[p.i].(*ssa.Call)
+		arg := c.Call.Args[1]
+		// nearest dominating If that tests some value against nil
+		var tested ssa.Value
+		for b := p.b; b != nil && tested == nil; b = b.Idom() {
+			d := b.Idom()
+			if d == nil {
+				break
+			}
+			cnd, _ := condOf(d)
+			if bin, isBin := cnd.(*ssa.BinOp); isBin && (bin.Op == token.NEQ || bin.Op == token.EQL) {
+				isNil := func(v ssa.Value) bool { k, ok := v.(*ssa.Const); return ok && k.IsNil() }
+				if isNil(bin.Y) {
+					tested = bin.X
+				} else if isNil(bin.X) {
+					tested = bin.Y
+				}
+			}
+		}
+		if tested == nil || !ssaSame(tested, arg, 0) {
+			ok = false
+			detail = "queueError at " + e.pos(c) + " is not given the error value whose nil test guards it"
+		}
+	}
+	if ok {
+		detail = fmt.Sprintf("%d queueError calls, each forwards the error that was just tested", n)
+	}
+	e.add("reader#forwards-observed-error", "ParseNDStream.reader", []string{"C09"}, ok && n > 0, detail)
+	// per-chunk buffer
+	ok, detail = false, "worker start not found"
+	for _, g := range find(reader, isGo()) {
+		goi := g.b.Instrs[g.i].(*ssa.Go)
+		mc, isMC := goi.Call.Value.(*ssa.MakeClosure)
+		if !isMC {
+			continue
+		}
+		ok, detail = true, "every slice variable captured by the worker is allocated inside the read loop (one per chunk)"
+		for _, bnd := range mc.Bindings {
+			al, isAl := bnd.(*ssa.Alloc)
+			if !isAl {
+				continue
+			}
+			if _, isSlice := al.Type().Underlying().(*types.Pointer).Elem().Underlying().(*types.Slice); !isSlice {
+				continue
+			}
+			if al.Block() == reader.Blocks[0] {
+				ok, detail = false, "the worker started at "+e.pos(goi)+" captures the slice variable "+al.Comment+", which is shared by all iterations of the read loop: a worker may parse a later chunk"
+			}
+		}
+	}
+	e.add("reader#chunk-buffer-per-worker", "ParseNDStream.reader", []string{"C09", "C20"}, ok, detail)
 }
